@@ -2,7 +2,10 @@
 //! profirust code (path dependency on /repo).  One sub-command per driver; every driver writes
 //! an ndjson event log that TLC validates against a Trace*.tla specification.
 mod codec;
+mod ring;
 mod util;
+mod vbus;
+mod world;
 
 fn main() {
     let mut it = std::env::args().skip(1);
@@ -15,6 +18,7 @@ fn main() {
     }
     match cmd.as_str() {
         "codec" => codec::run(&args),
+        "ring" => ring::run(&args),
         _ => {
             eprintln!("usage: pbv <codec|...> --out FILE --seed N --tier quick|thorough");
             std::process::exit(2);
